@@ -105,3 +105,72 @@ Proof.
   unfold kind_of_name. cbn [existsb].
   destruct (String.eqb s "state"), (String.eqb s "povm"), (String.eqb s "gate"), (String.eqb s "mprocess"); reflexivity.
 Qed.
+
+(* ------------------------------------------------------------------ part 3: procedures *)
+(* how the model's verdicts read as propagating exceptions *)
+Definition xres_of_vres (v : vres) : xres :=
+  match v with
+  | VOk => XPass
+  | VItemError _ _ _ | VNonIter _ => XRaise "QuaraScheduleItemError"
+  | VOrderError _ _ => XRaise "QuaraScheduleOrderError"
+  end.
+Lemma xres_of_vres_pass v : xres_of_vres v = XPass <-> v = VOk.
+Proof. destruct v; cbn; split; intros H; try discriminate; reflexivity. Qed.
+(* a raw schedule all of whose items validate is the raw form of the typed items *)
+Lemma validate_items_parse c items j t : validate_items c j items = inl t -> parse_items items = Some t.
+Proof. intros H. apply validate_items_inl_iff in H. destruct H as [-> _]. now apply parse_items_iff. Qed.
+Lemma set_objs_with e k v : set_objs e k v = mkexp (with_objs (e_cfg e) k v) (e_scheds e).
+Proof. reflexivity. Qed.
+
+(* ------------------------------------------------------------------ calc_prob_dist *)
+(* the model's outcome (Model/C20_Schedule.calc_prob_dist_pre) as "what is handed to compose_qoperations": the referenced
+   objects in REVERSE schedule order (targets.appendleft), or the exception *)
+Definition crun_of (r : C20_Schedule.cres) : crun :=
+  match r with
+  | CRun t => CRCompose (rev t)
+  | CValueError _ => CRRaise "ValueError"
+  | C20_Schedule.CIndexError => CRRaise "IndexError"
+  | CTypeError => CRRaise "TypeError"
+  | COther => CRStuck
+  end.
+Lemma collect_left_spec c exc t : forall acc p,
+  collect_left c (map raw t) acc exc =
+  match first_none c p t with Some _ => CRRaise exc | None => CRCompose (rev t ++ acc) end.
+Proof.
+  induction t as [|[k z] t IH]; intros acc p; [reflexivity|].
+  cbn [map collect_left first_none]. replace (parse_item (raw (k, z))) with (Some (k, z)) by (symmetry; now apply parse_item_iff).
+  unfold item_present. cbn [fst snd]. destruct (nth (Z.to_nat z) (objs c k) false); [|reflexivity].
+  etransitivity; [apply (IH ((k, z) :: acc) (S p))|]. destruct (first_none c (S p) t); [reflexivity|].
+  cbn [rev]. now rewrite <- app_assoc.
+Qed.
+Lemma cfg_eta c : mkcfg (c_states c) (c_povms c) (c_gates c) (c_mprocesses c) = c.
+Proof. now destruct c. Qed.
+
+(* ------------------------------------------------------------------ tomography constructors (schedule prologue) *)
+Definition xres_of_tres (r : tres) : xres :=
+  match r with
+  | TOk => XPass
+  | TExp v => xres_of_vres v
+  | TGuardValueError _ | TStrValueError => XRaise "ValueError"
+  | TGuardIndexError _ => XRaise "IndexError"
+  end.
+Lemma xres_of_tres_pass r : (forall v, r = TExp v -> v <> VOk) -> (xres_of_tres r = XPass <-> r = TOk).
+Proof.
+  intros H. destruct r as [|v| | |]; cbn; split; intros E; try discriminate; try reflexivity.
+  exfalso. apply (H v eq_refl). now apply xres_of_vres_pass.
+Qed.
+(* the loop `for i, schedule in enumerate(schedules): <guard>` over schedules the Experiment accepted *)
+Lemma guard_loop_sim (gen : list titem -> fres) t c ss :
+  (forall s, guard_sim (gen s) (guard_one t s)) -> Forall (well_formed c) ss -> forall i,
+  x_for ss (fun schedule => x_call_guard gen schedule) = xres_of_tres (guard_from (guard_one t) c i ss).
+Proof.
+  intros G W. induction W as [|s ss (items & -> & Hr & _) _ IH]; intros i; [reflexivity|].
+  cbn [x_for guard_from]. fold (sched_of items). rewrite (typed_of_sched_of c items Hr).
+  unfold x_call_guard, x_call_order, sched_of. replace (parse_items (map raw items)) with (Some items) by (symmetry; now apply parse_items_iff).
+  specialize (G items). destruct (gen items), (guard_one t items); cbn in G; try contradiction; cbn [x_of_fres x_seq xres_of_tres].
+  - apply IH.
+  - now subst.
+  - reflexivity.
+Qed.
+Lemma guard_from_not_exp g c ss : forall i v, guard_from g c i ss <> TExp v.
+Proof. induction ss as [|s ss IH]; intros i v; cbn; [discriminate|]. destruct (g _); [apply IH|discriminate..]. Qed.
